@@ -184,10 +184,66 @@ func runPlenctag(flags [3]bool, src string) (out []byte, status string) {
 	return so.Bytes(), "ok"
 }
 
+// runPlenctagInPlace runs the tool in its default mode (-w) on a scratch file and returns the file afterwards.
+func runPlenctagInPlace(flags [3]bool, src string) ([]byte, string) {
+	tagtoolSeq++
+	fn := filepath.Join(tagtoolDir, fmt.Sprintf("w%d.go", tagtoolSeq))
+	fn2 := filepath.Join(tagtoolDir, fmt.Sprintf("w%db.go", tagtoolSeq)) // a second file in the same invocation
+	if err := os.WriteFile(fn, []byte(src), 0o644); err != nil {
+		return nil, "bad-op"
+	}
+	if err := os.WriteFile(fn2, []byte(src), 0o644); err != nil {
+		return nil, "bad-op"
+	}
+	defer os.Remove(fn)
+	defer os.Remove(fn2)
+	cmd := exec.Command(plenctagBin, fmt.Sprintf("-json=%v", flags[0]), fmt.Sprintf("-sql=%v", flags[1]), fmt.Sprintf("-private=%v", flags[2]), fn, fn2)
+	var so, se bytes.Buffer
+	cmd.Stdout, cmd.Stderr = &so, &se
+	if err := cmd.Run(); err != nil {
+		return nil, "exit: " + strings.SplitN(se.String(), "\n", 2)[0]
+	}
+	if so.Len() != 0 {
+		return nil, "printed to stdout in -w mode"
+	}
+	b, err := os.ReadFile(fn)
+	if err != nil {
+		return nil, "unreadable"
+	}
+	if b2, err := os.ReadFile(fn2); err != nil || !bytes.Equal(b, b2) {
+		return nil, "the second file of the invocation was not rewritten like the first"
+	}
+	return b, "ok"
+}
+
+// plenctagUsage: with no file arguments the tool says so and exits 1.
+func plenctagUsage() string {
+	if err := ensurePlenctag(); err != nil {
+		return "bad-op"
+	}
+	cmd := exec.Command(plenctagBin)
+	var se bytes.Buffer
+	cmd.Stderr = &se
+	err := cmd.Run()
+	ee, ok := err.(*exec.ExitError)
+	if !ok || ee.ExitCode() != 1 || !strings.Contains(se.String(), "no files specified") {
+		return fmt.Sprintf("with no arguments: err=%v stderr=%q", err, strings.SplitN(se.String(), "\n", 2)[0])
+	}
+	return ""
+}
+
 var lastTagtoolOracle []string
+
+var usageChecked bool
 
 func execTagtool(s *Sexp) string {
 	lastTagtoolOracle = nil
+	if !usageChecked {
+		usageChecked = true
+		if m := plenctagUsage(); m != "" && m != "bad-op" {
+			lastTagtoolOracle = append(lastTagtoolOracle, m)
+		}
+	}
 	flags, structs, err := parseTagtool(s)
 	if err != nil {
 		return "bad-op " + err.Error()
@@ -215,6 +271,10 @@ func execTagtool(s *Sexp) string {
 	out2, st2 := runPlenctag(flags, string(out))
 	if st2 != "ok" || !bytes.Equal(out2, out) {
 		lastTagtoolOracle = append(lastTagtoolOracle, "a second run changes the file")
+	}
+	// -w (the default mode): the file is rewritten in place with exactly what -w=false prints
+	if wout, st := runPlenctagInPlace(flags, src); st != "ok" || !bytes.Equal(wout, out) {
+		lastTagtoolOracle = append(lastTagtoolOracle, "writing in place (-w) gives a different result ("+st+") than printing (-w=false)")
 	}
 	before, _ := tagTable([]byte(src))
 	lastTagtoolOracle = append(lastTagtoolOracle, tagtoolRules(flags, before, tbl)...)
